@@ -90,6 +90,80 @@ theorem failure_returns_to_retry (s s' : St) (l : Label)
   rcases hl with rfl | rfl | rfl <;> simp only [step] at h <;>
     (cases hp : s.phase <;> simp [hp] at h <;> subst h <;> simp [step])
 
+def recoveryLabel (l : Label) : Prop := l = .connect ∨ l = .resubSent ∨ l = .take ∨ l = .sent
+
+/-- **Recovery from every reachable state.** Whatever has happened — any number of failed stream
+creations, failed resubscriptions, failed sends and receives, at any point, with any changes made
+by callers in between — from the state reached there is a run of at most four steps of the run
+loop alone (create the stream, resubscribe, take the pending batch, send it; no step of a caller
+is needed, none fails) after which a stream is up, nothing is pending and the services subscribed
+on the stream are exactly the dependency set. Together with `run_loop_never_stuck` (the loop
+always has a step) and `failure_returns_to_retry`: the client never ends up in a state from which
+it cannot get back in sync. -/
+theorem recovers_from_every_state (ls : List Label) (s : St) (h : run {} ls = some s) :
+    ∃ (rec : List Label) (s' : St), rec.length ≤ 4 ∧ (∀ l ∈ rec, recoveryLabel l) ∧ run s rec = some s' ∧
+      s'.phase = .idle ∧ s'.pending = [] ∧ (∀ k, s'.subscribed k = s.subscribed k) ∧ ∀ k, s'.server k = s.subscribed k := by
+  have hi := inv_run ls _ s inv_init h
+  cases hp : s.phase with
+  | idle =>
+    by_cases hpe : s.pending = []
+    · refine ⟨[], s, by simp, by simp, rfl, hp, hpe, fun _ => rfl, ?_⟩
+      intro k
+      have := hi.tracks (applyOps s.server s.pending) (by simp [target, hp]) k
+      simpa [hpe, applyOps] using this
+    · refine ⟨[.take, .sent], { s with phase := .idle, pending := [], server := applyMsgSU s.server (mkMsg s.pending) },
+        by simp, ?_, by simp [run, step, hp, hpe], rfl, rfl, fun _ => rfl, ?_⟩
+      · intro l hl; simp only [List.mem_cons, List.mem_nil_iff, or_false] at hl
+        rcases hl with e | e <;> subst e <;> simp [recoveryLabel]
+      · intro k
+        show applyMsgSU s.server (mkMsg s.pending) k = s.subscribed k
+        rw [applyMsgSU_mkMsg]
+        exact hi.tracks _ (by simp [target, hp]) k
+  | sending m =>
+    by_cases hpe : s.pending = []
+    · refine ⟨[.sent], { s with phase := .idle, server := applyMsgSU s.server m }, by simp, ?_, by simp [run, step, hp], rfl, hpe, fun _ => rfl, ?_⟩
+      · intro l hl; simp only [List.mem_singleton] at hl; subst hl; simp [recoveryLabel]
+      · intro k
+        have := hi.tracks (applyOps (applyMsgSU s.server m) s.pending) (by simp [target, hp]) k
+        simpa [hpe, applyOps] using this
+    · refine ⟨[.sent, .take, .sent],
+        { s with phase := .idle, pending := [], server := applyMsgSU (applyMsgSU s.server m) (mkMsg s.pending) },
+        by simp, ?_, by simp [run, step, hp, hpe], rfl, rfl, fun _ => rfl, ?_⟩
+      · intro l hl; simp only [List.mem_cons, List.mem_nil_iff, or_false] at hl
+        rcases hl with e | e | e <;> subst e <;> simp [recoveryLabel]
+      · intro k
+        show applyMsgSU (applyMsgSU s.server m) (mkMsg s.pending) k = s.subscribed k
+        rw [applyMsgSU_mkMsg]
+        exact hi.tracks _ (by simp [target, hp]) k
+  | snap l =>
+    by_cases hpe : s.pending = []
+    · refine ⟨[.resubSent], { s with phase := .idle, server := memSet l }, by simp, ?_, by simp [run, step, hp], rfl, hpe, fun _ => rfl, ?_⟩
+      · intro x hx; simp only [List.mem_singleton] at hx; subst hx; simp [recoveryLabel]
+      · intro k
+        have := hi.tracks (applyOps (memSet l) s.pending) (by simp [target, hp]) k
+        simpa [hpe, applyOps] using this
+    · refine ⟨[.resubSent, .take, .sent],
+        { s with phase := .idle, pending := [], server := applyMsgSU (memSet l) (mkMsg s.pending) },
+        by simp, ?_, by simp [run, step, hp, hpe], rfl, rfl, fun _ => rfl, ?_⟩
+      · intro x hx; simp only [List.mem_cons, List.mem_nil_iff, or_false] at hx
+        rcases hx with e | e | e <;> subst e <;> simp [recoveryLabel]
+      · intro k
+        show applyMsgSU (memSet l) (mkMsg s.pending) k = s.subscribed k
+        rw [applyMsgSU_mkMsg]
+        exact hi.tracks _ (by simp [target, hp]) k
+  | down =>
+    refine ⟨[.connect, .resubSent],
+      { s with phase := .idle, pending := [], server := memSet (s.names.filter s.subscribed) },
+      by simp, ?_, by simp [run, step, hp], rfl, rfl, fun _ => rfl, ?_⟩
+    · intro x hx; simp only [List.mem_cons, List.mem_nil_iff, or_false] at hx
+      rcases hx with e | e <;> subst e <;> simp [recoveryLabel]
+    · intro k
+      show memSet (s.names.filter s.subscribed) k = s.subscribed k
+      unfold memSet
+      cases hk : s.subscribed k with
+      | true => simp [List.mem_filter, hk, hi.support k hk]
+      | false => simp [List.mem_filter, hk]
+
 /-- more than sixteen changes while no stream exists, then a stream: tracked (non-vacuity, and
 the shape of F-16a) -/
 example :
@@ -185,3 +259,4 @@ end SamVerif.Props.C16
 #print axioms SamVerif.Props.C16.failure_returns_to_retry
 #print axioms SamVerif.Props.C16.old_batching_ambiguous
 #print axioms SamVerif.Props.C16.code_matches_model
+#print axioms SamVerif.Props.C16.recovers_from_every_state
